@@ -45,4 +45,46 @@ def progx (fields : List String) : List String :=
            "D " ++ toString st.store.maxDepth]
   | [] => ["X bad-fields"]
 
+/-- `imports`: one import declaration on a fresh `default()` interpreter with a native library
+`(m)` exporting a b c d = 1 2 3 4; the bindings of the root frame afterwards, sorted by name -/
+def imports (fields : List String) : List String :=
+  match fields with
+  | [decl] =>
+    let st := Interp.default_ false
+    let m : List (String × Value) := [("a", .num (.int 1)), ("b", .num (.int 2)), ("c", .num (.int 3)), ("d", .num (.int 4))]
+    let st := { st with factories := st.factories ++ [([LibElem.ident "m"], Interp.Factory.native m)] }
+    match Interp.evalText evalFuel st (unescape decl) with
+    | (.error e, _) => [errStr e]
+    | (.ok _, st) =>
+      match st.store.frames[st.env]? with
+      | none => []
+      | some f =>
+        let defs := f.defs.map (fun (k, v) => esc k ++ "=" ++ Prim.canon st.store 1000 v)
+        (defs.toArray.qsort (· < ·)).toList
+  | _ => ["X bad-fields"]
+
+def hexBytes (s : String) : ByteArray :=
+  let cs := s.toList
+  let rec go : List Char → ByteArray → ByteArray
+    | a :: b :: rest, acc =>
+      match hexVal [a, b] with
+      | some n => go rest (acc.push n.toUInt8)
+      | none => go rest acc
+    | _, acc => acc
+  go cs ByteArray.empty
+
+/-- `evalfile`: fields = mode, content as hex bytes (or `DIR` / `MISSING`): `eval_file` reads the
+whole file as UTF-8 (anything else is an io error) and evaluates the text -/
+def evalfile (fields : List String) : List String :=
+  match fields with
+  | [mode, content] =>
+    if content == "DIR" || content == "MISSING" then ["E io -"] else
+    match String.fromUTF8? (hexBytes content) with
+    | none => ["E io -"]
+    | some text =>
+      let st := initState mode
+      let (r, st) := Interp.evalText evalFuel st text.toList
+      [showResult st r]
+  | _ => ["X bad-fields"]
+
 end Ruschm.Driver
